@@ -439,9 +439,9 @@ func (x *Exec) evalBinary(env *SpecEnv, b *ast.BinaryExpr) specVal {
 	srt := x.vc.sortOf(l.typ)
 	switch b.Op {
 	case token.EQL:
-		return specVal{term: eq(l.term, r.term), typ: tBool}
+		return specVal{term: x.vc.structEq(l.typ, l.term, r.term), typ: tBool}
 	case token.NEQ:
-		return specVal{term: not(eq(l.term, r.term)), typ: tBool}
+		return specVal{term: not(x.vc.structEq(l.typ, l.term, r.term)), typ: tBool}
 	}
 	if srt == "Int" {
 		switch b.Op {
